@@ -230,6 +230,9 @@ fn eval_internal(mem: &mut Memory, mut expression: GcRef, mut env: GcRef, mut en
             }
         }
 
+        #[cfg(picilisp_verif)]
+        crate::memory::verif::after_poll();
+
         let name = expression.get_meta().map(|md| md.read_name.clone());
 
         if let Some(mut list_elems) = list_to_vec(expression.clone()) {
